@@ -856,7 +856,7 @@ def summarize(obs):
             "space_rows": dict(p3.get("space_rows", {})), "call_paths": dict(p3.get("call_paths", {}))}
 
 
-def union_verdict(entries, joint, singles):
+def union_verdict(entries, joint, singles, soft=None):
     """metamorphic oracle (needs no model): selected entries are analysed independently of each other, so
     (1) the flows of one run with entries {e1..ek} are exactly the union of the flows of the k single-entry runs;
     (2) what P3 stores under the id of entry e in the joint run (size of its state space, call paths starting at e)
@@ -876,8 +876,17 @@ def union_verdict(entries, joint, singles):
             k = str(mid)
             a, b = joint["space_rows"].get(k), singles[e]["space_rows"].get(k)
             if a != b:
-                why.append(f"entry {e} (id {mid}): its state space stored by the joint run has {a} rows, by the single-entry run {b}"
-                           + (" — nothing is stored under its id in the joint run" if a is None else ""))
+                msg = (f"entry {e} (id {mid}): its state space stored by the joint run has {a} rows, by the single-entry run {b}"
+                       + (" — nothing is stored under its id in the joint run" if a is None else ""))
+                # The property demands that a selected entry IS analysed (something is stored under its id) and that
+                # its flows and call paths do not depend on the other entries; it does not fix the exact number of
+                # state rows, which for entries that call each other (mutual recursion) varies by a row or two with
+                # the order in which P3 visits the entries (summaries of already analysed callees are reused).
+                # Missing artefact, or a state space that shrank by more than a quarter = hard; small drift = soft.
+                if a is None or b is None or a < 0.75 * b:
+                    why.append(msg)
+                elif soft is not None:
+                    soft.append(msg)
             a, b = joint["call_paths"].get(k, []), singles[e]["call_paths"].get(k, [])
             if a != b:
                 why.append(f"entry {e} (id {mid}): call paths starting at it differ: joint run {a}, single-entry run {b}")
@@ -1566,7 +1575,11 @@ def run(ctx):
             if "chain" in cp:
                 ustats["chain_flows_expected"] += len(ents)
                 ustats["chain_flows_seen"] += sum(1 for e in ents if tuple(cp["chain"]["expected"][e]) in mf)
-            w = union_verdict(ents, joint, singles)
+            usoft = []
+            w = union_verdict(ents, joint, singles, usoft)
+            ustats["soft_row_drift"] = ustats.get("soft_row_drift", 0) + len(usoft)
+            if usoft:
+                ustats.setdefault("soft_samples", []).append(usoft[0])
             if w:
                 ustats["violations"] += 1
                 failing.append(("union", {"proj": cp, "entries": ents, "singles": singles}, w))
